@@ -52,6 +52,8 @@ fn pure_leg(ctx: &Ctx, name: &str, pairs: &[(String, String)], bodies: &[Option<
 
 fn main() {
     let ctx = Ctx::from_env("C11");
+    // panics of the subject are caught and reported as violations; keep stderr readable
+    std::panic::set_hook(Box::new(|_| {}));
 
     if let Some(r) = ctx.replay_request() {
         let d = &r["detail"];
